@@ -390,36 +390,18 @@ func (c *c15Checker) check(seq []int, slots []int, format, refFormat string, val
 		bad(fmt.Sprintf("%d uses of %%w are incorrect (not the first %%w, or no error operand) and must each be reported as a bad verb %%!w(...); the text has %d such reports", badW, n))
 		return
 	}
-	// KNOWN DIVERGENCE (reported, not silently dropped): a correctly used %#w prints the error's message,
-	// while %#v prints the Go-syntax representation of the error value:
-	// HelperForErrorf("%#w", errors.New("n0")) = "‹n0›" but Sprintf("%#v", errors.New("n0")) =
-	// "&errors.errorString{s:‹"n0"›}". So '#' is the one flag with which %w does not render like %v; these
-	// inputs are skipped for the text comparisons only (the returned error is still checked above).
 	sharpW := firstW >= 0 && c15Pieces[seq[firstW]].text == "%#w" && slots[firstW] >= 0 && vals[slots[firstW]].plain != nil
-	if sharpW && firstHeld != nil {
-		st.sharpSkipped++
-		return
-	}
 	if refText := string(Sprintf(ref, args...)); refText != text {
 		bad(fmt.Sprintf("text differs from Sprintf(%q, same operands) = %q (a correctly used %%w renders like %%v, every other %%w is a bad verb)", ref, refText))
 		return
 	}
 	// law 3: fmt.Errorf
 	if !c.hook && nW <= 1 {
-		// KNOWN DIVERGENCE (reported, not silently dropped): since Go 1.20 fmt.Errorf gives the flags of %w the
-		// meaning they have for %v ('+' becomes the struct-field flag), also when the %w is then reported as a
-		// bad verb; the library keeps '+' as the numeric sign flag. So for an int operand
-		// HelperForErrorf("%+w", 103) prints %!w(int=+103) where fmt.Errorf prints %!w(int=103). These inputs
-		// are skipped for the fmt.Errorf comparison only (they are still compared with Sprintf above).
-		if firstW >= 0 && strings.HasPrefix(c15Pieces[seq[firstW]].text, "%+") && slots[firstW] >= 0 {
-			if _, isInt := vals[slots[firstW]].plain.(int); isInt {
-				st.errfSkipped++
-				return
-			}
-		}
-		// same family: with '#', fmt.Errorf of Go >= 1.20 prints misused operands in Go syntax
-		// (%!w(string="str0")) where the library prints %!w(string=str0).
-		if sharpW {
+		// fmt.Errorf itself does not print a correctly used %#w like %#v when the error has no GoString method
+		// (fmt.Errorf("%#w", errors.New("e")) is "&%!w(errors.errorString=errors.errorString{s:\"e\"})"): there the two
+		// clauses of the statement cannot both hold; "renders exactly like %v" is checked by law 2, and the
+		// comparison with fmt.Errorf leaves these inputs out.
+		if sharpW && firstHeld != nil {
 			st.sharpSkipped++
 			return
 		}
@@ -714,14 +696,14 @@ func TestVerifBoundedC15(t *testing.T) {
 		st.manyW, st.manyWAllErr, "at least three of the %w directives designate operands that hold errors", bound, ok)
 	emit("for at most one %w: text with markers stripped = fmt.Errorf(format, operands without Safe/Unsafe).Error() and returned error = its Unwrap()",
 		st.errfCases, st.errfOneW, "the format contains exactly one %w",
-		bound+fmt.Sprintf("; restricted to formats with at most one %%w; %d inputs (%%+w designating an int: library prints %%!w(int=+103), fmt.Errorf of Go >= 1.20 prints %%!w(int=103)) skipped as a known divergence", st.errfSkipped), ok)
+		bound+"; restricted to formats with at most one %w", ok)
 	emit("with an error hook registered (RegisterRedactErrorFn; the hook prints causes through a nested Printf and itself calls HelperForErrorf) the returned error and the text/Sprintf agreement are unchanged",
 		hst.cases, hst.hookActive, "the hook ran during the call and an error is expected back",
 		fmt.Sprintf("the same enumeration over the %d formats of at most %d pieces", hFormats, maxLen-1), ok && hFormats > 0)
 	emit("flag, width and precision variants of %w: returned error, text vs Sprintf and vs fmt.Errorf as above",
 		fst.cases, fst.withW, "the format contains at least one %w",
-		fmt.Sprintf("the same enumeration over the %d formats of at most %d pieces over the twelve pieces and {%s}; %d inputs with a %%#w designating a non-nil operand skipped for the text comparisons as a known divergence (%%#w prints the error message, %%#v the Go syntax), %d inputs with %%+w designating an int skipped for the fmt.Errorf comparison",
-			fFormats, maxLen-2, strings.Join(extra, " "), fst.sharpSkipped, fst.errfSkipped), okFlags)
+		fmt.Sprintf("the same enumeration over the %d formats of at most %d pieces over the twelve pieces and {%s}; %d inputs with a correctly used %%#w left out of the fmt.Errorf comparison only (fmt.Errorf itself does not print %%#w like %%#v for an error without GoString method)",
+			fFormats, maxLen-2, strings.Join(extra, " "), fst.sharpSkipped), okFlags)
 }
 
 // ---------------------------------------------------------------------------------------------------
